@@ -117,26 +117,6 @@ pub fn check_sort(c: &SortCase) -> Verdict {
     v
 }
 
-/// 10^s (+ delta) at scale s against 1: operands of hundreds of megabits, built with `pow`, judged
-/// against the mathematically known answer (thorough tier only)
-#[derive(Clone, Debug, Hash, Serialize, Deserialize)]
-pub struct HugeGap {
-    pub s: u32,
-    pub delta: u8,
-}
-
-pub fn check_huge_gap(c: &HugeGap) -> Verdict {
-    let p = BigUint::from(10u8).pow(c.s) + BigUint::from(c.delta);
-    let a = BigDecimal::new(num_bigint::BigInt::from(p), c.s as i64);
-    let one = BigDecimal::new(num_bigint::BigInt::from(1), 0);
-    let want = if c.delta == 0 { Ordering::Equal } else { Ordering::Greater };
-    let mut v = Verdict::pass(true);
-    ensure!(v, a.cmp(&one) == want, "C02/cmp", "(10^{} + {}) e-{} cmp 1 = {} expected {}", c.s, c.delta, c.s, ord_name(a.cmp(&one)), ord_name(want));
-    ensure!(v, one.cmp(&a) == want.reverse(), "C02/cmp-antisym", "1 cmp (10^{} + {}) e-{} = {}", c.s, c.delta, c.s, ord_name(one.cmp(&a)));
-    ensure!(v, (a == one) == (want == Ordering::Equal), "C02/eq", "(10^{} + {}) e-{} == 1 is {}", c.s, c.delta, c.s, a == one);
-    v
-}
-
 // ---------------------------------------------------------------- generators
 
 /// variant: 0 twin, 1 = +1 unit on the finer operand, 2 = -1 unit
@@ -386,16 +366,6 @@ pub fn run(ctx: &Ctx) {
     ctx.generated("extreme-scales", "pair", n / 2, "scales at i64::MIN/MAX, +-2^62, random i64: differences beyond 2^63", extreme_scale_strategy, check_pair);
     ctx.generated("straddle-u64-u128", "pair", t.pick(100_000, 500_000), "a = 2^64|2^128 + da at scale g vs b = floor(limit/10^g) + db", straddle_strategy, check_pair);
     ctx.generated("sort-vectors", "sort", t.pick(50_000, 500_000), "vectors of 2..12 decimals with twins, negations and neighbours; sort/max/min", move || sort_strategy(max_len.min(200)), check_sort);
-    if t == crate::engine::Tier::Thorough && ctx.flavour == "rel" {
-        // scale differences at which the f64 estimate of scale*log2(10) rounds up to the next integer
-        ctx.listed(
-            "huge-gap-estimate",
-            "hugegap",
-            "10^s (+0, +1) at scale s against 1 for s = 163506621 (the smallest scale difference at which LOG2_10 * s rounds up across an integer): 68 MB operands built with pow",
-            vec![HugeGap { s: 163_506_621, delta: 0 }, HugeGap { s: 163_506_621, delta: 1 }],
-            check_huge_gap,
-        );
-    }
     let _ = SplitMix(0);
     let _ = DigSpec { shape: 0, len: 0, head: vec![], seed: 0, aux: 0 };
 }
